@@ -1072,6 +1072,23 @@ jump_handshake(br_ssl_engine_context *cc, int action)
 		}
 
 		/*
+		 * If some application data is buffered but not flushed
+		 * yet, and the handshake processor is about to start a
+		 * new handshake (explicit renegotiation request, or
+		 * incoming handshake message while application data is
+		 * exchanged), then that data must go out first, in its
+		 * own record: the processor switches the outgoing record
+		 * type and could never send it afterwards.
+		 */
+		if (cc->application_data == 1
+			&& br_ssl_engine_has_pld_to_send(cc)
+			&& (action == 2 || (hlen_in > 0
+			&& cc->record_type_in == BR_SSL_HANDSHAKE)))
+		{
+			sendpld_flush(cc, 0);
+		}
+
+		/*
 		 * Get output buffer. The handshake processor never
 		 * leaves an unfinished outgoing record, so if there is
 		 * buffered output, then it MUST be some application
